@@ -1017,7 +1017,12 @@ class RunMonitor:
                 mon.c("C16.faults_delivered")
                 mon.c("C16.faults_delivered." + kind)
                 raise np.linalg.LinAlgError("injected GP fit failure #%d" % i)
-            return o_fit(g, X, y, s2, hyp0=hyp0, options=options, **kw)
+            try:
+                return o_fit(g, X, y, s2, hyp0=hyp0, options=options, **kw)
+            except np.linalg.LinAlgError:
+                mon.flags.add("gp-fit-retried")
+                mon.c("natural_gp_fit_failures")
+                raise
 
         patch.set(GP, "fit", fit)
 
